@@ -38,9 +38,9 @@ func isHeavy(fn *ssa.Function, it *Interp) bool {
 	if isHeavyBody(fn, it) {
 		return true
 	}
-	// a one-line wrapper of a heavy function (the chain evaluated by a table interpreter or a helper): a single block
-	// with at most three calls, returning nothing or a pointer, one of whose callees is heavy
-	if !IsInternalPkg(fn) || IsFiatLeaf(fn) || len(fn.Blocks) != 1 {
+	// a function built on a heavy one (the chain evaluated by a table interpreter or a helper): returning nothing or a
+	// pointer, one of whose callees is heavy
+	if !IsInternalPkg(fn) || IsFiatLeaf(fn) || fn.Blocks == nil {
 		return false
 	}
 	res := fn.Signature.Results()
@@ -52,19 +52,19 @@ func isHeavy(fn *ssa.Function, it *Interp) bool {
 			return false
 		}
 	}
-	ncalls := 0
-	heavyCallee := false
-	for _, in := range fn.Blocks[0].Instrs {
-		c, ok := in.(*ssa.Call)
-		if !ok {
-			continue
-		}
-		ncalls++
-		if cal := c.Call.StaticCallee(); cal != nil && cal != fn && isHeavyBody(cal, it) {
-			heavyCallee = true
+	// (also a chain written with a repeated-squaring helper: the helper's loop makes it heavy, the chain calls it)
+	for _, b := range fn.Blocks {
+		for _, in := range b.Instrs {
+			c, ok := in.(*ssa.Call)
+			if !ok {
+				continue
+			}
+			if cal := c.Call.StaticCallee(); cal != nil && cal != fn && isHeavyBody(cal, it) {
+				return true
+			}
 		}
 	}
-	return heavyCallee && ncalls <= 3
+	return false
 }
 
 func isHeavyBody(fn *ssa.Function, it *Interp) bool {
@@ -422,6 +422,9 @@ func (it *Interp) computePowSummary(fn *ssa.Function, args []Value, f *Field, nl
 			sum.why = "returns a pointer that is not an argument"
 			return sum
 		}
+	} else if fn.Signature.Results().Len() > 0 {
+		sum.why = "returns something other than one of its pointer arguments"
+		return sum
 	}
 	sum.ok = true
 	sum.why = fn.String() + ": " + strings.Join(desc, ", ")
